@@ -188,6 +188,11 @@ def is_greedy(spec, _depth=0) -> bool:
 TEXT_ALPHABET = "abcXYZ 019_-.,;:!?/\\'\"#<>=[]{}$|é中" + "\r\x0b\x0c\x1c\x1d\x1e\x85\u2028\u2029\xa0\ufeff\t"
 
 
+RAW_NOT_REPRODUCED = []      # filled by the deriver (see _value_of_raw), drained by the checks that build payloads from derived values
+RAW_TRIED = [0]
+STATS = {}
+
+
 class Deriver:
     """Generates values for real spec objects. poison_at: index of the poisonable leaf that receives an
     out-of-domain value (None = never)."""
@@ -366,18 +371,41 @@ class Deriver:
         return dtypes.Quaternion(*comps)
 
     # ---- quantised
+    def _quantised_raw(self, prim):
+        # raws next to the ends and next to the middle of the raw domain (where 0.0 lives for ranges centred on zero) get their share
+        lo, hi = prim.min_val, prim.max_val
+        if self.rng.random() < 0.25:
+            mid = (lo + hi) // 2
+            return self.rng.choice([lo, lo + 1, hi, hi - 1, mid - 1, mid, mid + 1, mid + 2, max(lo, -1), max(lo, 0), 1, 2])
+        return self.rand_int(lo, hi)
+
+    def _value_of_raw(self, spec, raw, ctx):
+        """The value a payload holding `raw` in this field stands for. The payload is built from the value, so the value has to
+        lead back to the raw it came from - otherwise a payload with that raw in it cannot be reproduced at all, which is noted
+        for the caller (RAW_NOT_REPRODUCED) instead of silently generating the payload of another raw."""
+        val = spec.decode(raw, ctx)
+        try:
+            back = spec.encode(val, ctx)
+        except Exception as e:
+            back = repr(e)[:100]
+        RAW_TRIED[0] += 1
+        if back != raw:
+            RAW_NOT_REPRODUCED.append({"spec": type(spec).__name__, "prim": repr(spec._child_spec)[:60], "raw": raw, "decoded": val,
+                                       "encodes_as": back, "lower": getattr(spec, "lower", None), "upper": getattr(spec, "upper", None)})
+        return val
+
     def g_QuantizedFloat(self, spec, ctx, avoid):
         prim = spec._child_spec
-        raw = self.rand_int(prim.min_val, prim.max_val)
+        raw = self._quantised_raw(prim)
         if type(spec) is not se.QuantizedFloat and raw == prim.min_val:
             # specially stepped subclasses (texture rotation): the lowest raw is C10's known finding, keep it there
             raw += 1
-        return spec.decode(raw, ctx)
+        return self._value_of_raw(spec, raw, ctx)
 
     def g_QuantizedFloatBase(self, spec, ctx, avoid):
         prim = spec._child_spec
-        raw = self.rand_int(prim.min_val, prim.max_val)
-        return spec.decode(raw, ctx)
+        raw = self._quantised_raw(prim)
+        return self._value_of_raw(spec, raw, ctx)
 
     def g_FixedPoint(self, spec, ctx, avoid):
         prim = spec._ser_spec
@@ -470,10 +498,13 @@ class Deriver:
         if members and (r < 0.7 or spec._strict or prim is None):
             return self.rng.choice(members)
         v = self.rand_int(prim.min_val, prim.max_val)
-        try:
-            return spec.enum_cls(v)
-        except ValueError:
-            return v
+        # (membership decided here by value: enum classes may define their own idea of what an unknown value turns into)
+        for m in spec.enum_cls:
+            if int(m) == v:
+                return m
+        if spec.enum_cls is HVShape:
+            STATS["unknown_values_under_catch_all_enum"] = STATS.get("unknown_values_under_catch_all_enum", 0) + 1
+        return v
 
     def g_IntFlag(self, spec, ctx, avoid):
         prim = spec._child_spec
@@ -715,6 +746,18 @@ class HVColor(dtypes.IntEnum):
     WIDE = 200
 
 
+class HVShape(dtypes.IntEnum):
+    """An enum with a catch-all member for values its own constructor does not know (a common idiom): on the wire an unknown
+    integer is still that integer."""
+    BOX = 0
+    BALL = 3
+    UNKNOWN = 255
+
+    @classmethod
+    def _missing_(cls, value):
+        return cls.UNKNOWN
+
+
 class HVKind(dtypes.IntEnum):
     A = 0
     B = 1
@@ -833,7 +876,7 @@ class ProgramGen:
             lambda: (se.FixedPoint(se.U16, 8, 8), 2), lambda: (se.FixedPoint(se.U8, 3, 5), 1),
             lambda: (se.FixedPoint(se.U16, 8, 7, signed=True), 2),
             lambda: self._bytes_fixed(), lambda: self._str_fixed(),
-            lambda: (se.IntEnum(HVColor, rng.choice([se.U8, se.U16, se.U32])), None),
+            lambda: (se.IntEnum(rng.choice([HVColor, HVShape]), rng.choice([se.U8, se.U16, se.U32])), None),
             lambda: (se.IntFlag(HVFlags, rng.choice([se.U8, se.U16, se.U32])), None),
             lambda: self._bitfield(), lambda: self._bitfield_dataclass(),
             lambda: (se.PackedQuat(se.Vector3), 12), lambda: (se.PackedQuat(se.Vector3U16(-1.0, 1.0)), 6),
@@ -934,7 +977,7 @@ class ProgramGen:
     def make(self, depth=0, allow_greedy=True, no_none=False, nonempty=False, hashable=False):
         rng = self.rng
         if hashable:
-            return rng.choice([se.U8, se.U16, se.S32, se.UUID, se.CStr(), se.Str(se.U8), se.IntEnum(HVColor, se.U8)])
+            return rng.choice([se.U8, se.U16, se.S32, se.UUID, se.CStr(), se.Str(se.U8), se.IntEnum(HVColor, se.U8), se.IntEnum(HVShape, se.U8)])
         leafy = depth >= self.max_depth or rng.random() < 0.25
         if leafy:
             r = rng.random()
